@@ -222,6 +222,7 @@ def run(col, configs, tier):
         guarded_soft(col, X.rule_naive_count_stages, facts)
         guarded_soft(col, X.rule_zero_exponent_normalised, facts)
         guarded_soft(col, X.rule_break_magnitude, facts)
+        guarded_soft(col, X.rule_bound_sums_saturate, facts)
         guarded_soft(col, X.rule_radix_delta_positive, facts)
         guarded_soft(col, X.rule_integer_buffer_nondecimal, facts)
         guarded(col, F.rule_entry_validation, facts)
